@@ -24,19 +24,20 @@ type VSeg struct {
 func (s VSeg) Dur() uint64 { return s.End - s.Start }
 
 type VRep struct {
-	ID        string
-	Kind      string // video audio text image
-	Codecs    string
-	InitURI   string
-	MediaTmpl string // with $Number$ / $Time$ left in
-	TS        uint64
-	Init      *Init
-	InitRaw   []byte
-	Segs      []VSeg
-	FrameDur  uint32 // constant sample duration (0 if not constant)
-	StartNr   int64
-	Bandwidth int
-	Lang      string
+	LoopMismatch bool // the track's own total duration differs from the reference (video) loop: its looped timeline is not defined by the statements
+	ID           string
+	Kind         string // video audio text image
+	Codecs       string
+	InitURI      string
+	MediaTmpl    string // with $Number$ / $Time$ left in
+	TS           uint64
+	Init         *Init
+	InitRaw      []byte
+	Segs         []VSeg
+	FrameDur     uint32 // constant sample duration (0 if not constant)
+	StartNr      int64
+	Bandwidth    int
+	Lang         string
 }
 
 func (r *VRep) IsTime() bool { return strings.Contains(r.MediaTmpl, "$Time$") }
@@ -149,6 +150,15 @@ func LoadAsset(root, assetPath string) (*VAsset, error) {
 	lt := a.Ref.LoopTicks() * 1000
 	a.LoopMS = int64(lt / a.Ref.TS)
 	a.LoopExact = lt%a.Ref.TS == 0
+	for _, r := range a.Reps {
+		if r.Kind == "audio" || r == a.Ref || len(r.Segs) == 0 {
+			continue // audio is re-segmented to the video grid
+		}
+		// compare total durations exactly: r.loop/r.TS == ref.loop/ref.TS
+		if r.LoopTicks()*a.Ref.TS != a.Ref.LoopTicks()*r.TS {
+			r.LoopMismatch = true
+		}
+	}
 	return a, nil
 }
 
